@@ -221,6 +221,8 @@ impl BirthInitializer {
         metric.name = Some(name.clone());
         metric.datatype = Some(DataType::Template as u32);
         metric.value = Some(MetricValue::from(definition).into());
+        metric.timestamp = Some(timestamp());
+        self.birth_metrics.push(metric);
         self.metric_names.insert(name);
 
         Ok(())
